@@ -2,6 +2,7 @@ package main
 
 import (
 	"math/big"
+	"strconv"
 	"strings"
 
 	"github.com/crate-crypto/go-ipa/bandersnatch/fr"
@@ -108,6 +109,35 @@ func pointValue(name string, p *prg) *big.Int {
 		}
 		if n, ok := new(big.Int).SetString(name, 10); ok {
 			return n
+		}
+		// limb-structured values "2^192+5", "3*2^128+255": a small (in-domain looking) low limb under a set high limb, where a
+		// shortcut that inspects only some of the limbs decides wrongly
+		if strings.Contains(name, "+") || strings.Contains(name, "*") {
+			sum := new(big.Int)
+			ok := true
+			for _, term := range strings.Split(name, "+") {
+				coef := big.NewInt(1)
+				if i := strings.Index(term, "*"); i >= 0 {
+					if _, ok2 := coef.SetString(term[:i], 10); !ok2 {
+						ok = false
+					}
+					term = term[i+1:]
+				}
+				v := new(big.Int)
+				if strings.HasPrefix(term, "2^") {
+					e, err := strconv.Atoi(term[2:])
+					if err != nil {
+						ok = false
+					}
+					v.Lsh(one, uint(e))
+				} else if _, ok2 := v.SetString(term, 10); !ok2 {
+					ok = false
+				}
+				sum.Add(sum, v.Mul(v, coef))
+			}
+			if ok {
+				return sum.Mod(sum, modR)
+			}
 		}
 		x := p.big(300)
 		x.Mod(x, modR)
